@@ -31,7 +31,7 @@ Definition failing_check_true :=       (* result built with check=True: isR -> n
 Definition failing_linalg :=           (* np.linalg.matrix_power / inv on an object array *)
   [("op.SE3**n","X**-1")].
 Definition failing_both_paths :=       (* broken on the numeric path as well *)
-  [("SE3.jacob","jacob"); ("Twist3.Rx","theta"); ("Twist3.Ry","theta"); ("Twist3.Rz","theta")].
+  [("Twist3.Rx","theta"); ("Twist3.Ry","theta"); ("Twist3.Rz","theta")].   (* SE3.jacob was here until fix 5493c9a *)
 Definition expected_failing :=
   (failing_getunit_deg ++ failing_eul_scalars ++ failing_float_alloc ++ failing_check_true ++ failing_linalg ++ failing_both_paths)%list.
 
@@ -55,7 +55,9 @@ Print Assumptions C16_callforms_partial.
 Example C16_callforms_nonvacuous :
   Nat.leb 100 (length (filter (fun r => match r with (e, f, _) => negb (mem (e, f) expected_failing) end) callforms)) = true /\
   existsb (fun r => match r with (e, f, Ok) => pair_eqb (e, f) ("base.rotx", "theta") | _ => false end) callforms = true /\
-  existsb (fun r => match r with (e, f, Ok) => pair_eqb (e, f) ("op.SE3*SE3", "X*Y") | _ => false end) callforms = true.
+  existsb (fun r => match r with (e, f, Ok) => pair_eqb (e, f) ("op.SE3*SE3", "X*Y") | _ => false end) callforms = true /\
+  (* repaired entry: must stay Ok (it is no longer in the list, so C16_callforms_partial covers it) *)
+  existsb (fun r => match r with (e, f, Ok) => pair_eqb (e, f) ("SE3.jacob", "jacob") | _ => false end) callforms = true.
 Proof. repeat split; vm_compute; reflexivity. Qed.
 
 (* the numeric path never rejects a form that the symbolic path accepts *)
